@@ -1151,6 +1151,12 @@ def fam_traits(rng):
                          {"op": "t_xof_reset_into", "n": k}, {"op": "count"},
                          {"op": "update", "a": 0, "b": a, "via": "digest"}, {"op": "t_xof_reset_into", "n": 32}, {"op": "count"}]
             out.append(_with({"kind": "traits", "input": _inp(n), "ops": ops2 + [{"op": "finalize"}]}, m))
+        # a hasher positioned by hazmat::set_input_offset: the trait finalizers refuse it exactly like the inherent ones
+        for fin in ({"op": "t_xof", "n": 64}, {"op": "t_xof_into", "n": 48}, {"op": "t_fixed"}, {"op": "t_xof_reset", "n": 64},
+                    {"op": "t_fixed_reset"}, {"op": "t_xof_reset_into", "n": 32}):
+            out.append(_with({"kind": "traits", "input": _inp(n),
+                              "ops": [{"op": "set_input_offset", "v": 2048}, {"op": "update", "a": 0, "b": min(n, 1024), "via": "digest"}, fin]},
+                             MODES[len(out) % 3]))
         # trait reads of every small size at block boundaries
         for k in (8, 16, 32, 48, 64):
             out.append({"kind": "xof", "mode": "keyed", "key_hex": KEY_TV, "input": _inp(n),
